@@ -291,6 +291,14 @@ func (c *caseRun) restart(mode string) string {
 	f := strings.Fields(out)
 	if len(f) == 2 {
 		c.r.Hit("mech:integrity-check=" + f[1])
+		// a pack stores the zip before its z: row and large never shrinks: the start-up check may find
+		// zips missing from the index, never rows without a zip; after a successful recovery nothing is missing
+		if strings.HasPrefix(f[1], "full") {
+			c.fail("integrity-demands-full-recovery", "restart "+mode, "none|fast", out)
+		}
+		if mode != "none" && f[0] == "ok" && f[1] != "none" {
+			c.fail("recovery-leaves-unindexed-zips", "restart "+mode, "ok none", out)
+		}
 	}
 	if len(f) < 1 || f[0] != "ok" {
 		c.fail("recovery-fails:"+f[0], "restart "+mode, "ok", out)
@@ -567,6 +575,10 @@ func Run(r *hk.Run) {
 	// family D: the truncate-and-retry window
 	for i := 0; i < nSweep; i++ {
 		truncateCase(r, rnd.Fork(), i)
+	}
+	// family E: the same bytes under two names, cut so that the two packs split differently
+	for i := 0; i < nSweep; i++ {
+		dupSplitCase(r, rnd.Fork(), i)
 	}
 	malformed(r, rnd.Fork())
 	probes(r)
@@ -917,6 +929,45 @@ func truncateCase(r *hk.Run, rnd *hk.Rand, i int) {
 	c.sweep(rnd)
 	c.op("dump")
 	c.finish("truncate", f, countStored(atts))
+}
+
+// dupSplitCase: a multi-zip file whose first pack is cut after the meta batch of its first zip; the
+// same bytes then arrive under a longer name whose (larger) file schema blob makes the first zip hold
+// one chunk less. large now holds two zips with the same whole ref and part index but different data
+// sizes – the situation reindex's hasDups panics on.
+func dupSplitCase(r *hk.Run, rnd *hk.Rand, i int) {
+	a := chunkyFile(rnd, fmt.Sprintf("a%d.bin", i), 4+rnd.Intn(2))
+	b := renamed(a, fmt.Sprintf("a%d-with-a-much-longer-name-%s.bin", i, strings.Repeat("y", rnd.Intn(20))))
+	var first int
+	for _, bl := range a.blobs[:2] {
+		first += len(bl.data)
+	}
+	schemaLen := len(a.blobs[len(a.blobs)-1].data)
+	zipMax := shadowFixedOverhead + shadowPerEntryOverhead + shadowManifestApprox + schemaLen + shadowPerEntryOverhead + first
+	ta, _, _ := shadowPack(mergeTbl(nil, a), a.fileRef, zipMax)
+	tb, _, _ := shadowPack(mergeTbl(nil, b), b.fileRef, zipMax)
+	if len(ta) == 0 || len(tb) == 0 || ta[0].nData == tb[0].nData || !ta[0].stored || !tb[0].stored {
+		r.Hit("dupsplit:not-constructed")
+		return
+	}
+	c := newCase(r, fmt.Sprintf("dup-split zipMax=%d first zips hold %d vs %d chunks", zipMax, ta[0].nData, tb[0].nData), zipMax)
+	c.addFile(a)
+	c.addFile(b)
+	k := 3 + rnd.Intn(2) // after the meta batch, or after the loose-blob deletion, of the first zip
+	_, atts := c.upload(rnd, a, false, fmt.Sprintf("k=%d", k))
+	c.afterPack(a, atts, k)
+	c.sweep(rnd)
+	c.restart("none")
+	_, atts2 := c.upload(rnd, b, false, "")
+	c.afterPackGuess(b, atts2, -1)
+	c.r.Hit("files:same-bytes-two-names-different-split")
+	c.feats["dup-split"] = true
+	c.sweep(rnd)
+	c.op("dump")
+	c.restart([]string{"fast", "full"}[i%2])
+	c.sweep(rnd)
+	c.op("dump")
+	c.finish("dup-split", a, countStored(atts2))
 }
 
 func malformed(r *hk.Run, rnd *hk.Rand) {
